@@ -25,4 +25,4 @@ Definition show_tokens (o : option (list token)) : string :=
 Definition run_tokenize (outputs : list string) : string :=
   lines (map (fun h => show_tokens (tokenize (of_hex h))) outputs).
 Definition run_expected_tokens (cases : list (vstate * view)) : string :=
-  lines (map (fun '(st, v) => show_tokens (Some (norm (flat_map tokens (fst (build st true 0 None v 0)))))) cases).
+  lines (map (fun '(st, v) => show_tokens (Some (norm (flat_map tokens (fst (build st build_fuel true 0 None v 0)))))) cases).
